@@ -498,41 +498,41 @@ Print Assumptions C02_from_bytes_examples.
 (* SubjectPublicKeyInfo and PKCS#8 PrivateKeyInfo from the bytes: the outer structure, the
    AlgorithmIdentifier (OID octets through parseObjectIdentifier, parameters as a RawValue), the BIT STRING /
    OCTET STRING and the NESTED decode of the key octets / parameters are all computed by the model.
-   For every answer [ec] of the EC parameter reader (not consulted under these algorithms), every key and
+   For every answer [inf] of the curve matcher (consulted for explicit EC parameters only), every key and
    every [rest]: RSA (rsaEncryption, NULL parameters), DSA (id-dsa, Dss-Parms), Ed25519 (no parameters). *)
-Theorem C02_pkix_rsa_from_bytes : forall ec n e rest, int_wf n = true -> exp_wf e = true ->
-  parse_pkix_der ec (enc_spki_rsa n e ++ rest) = Ok (key_description "PKIX public key" name_rsa n).
+Theorem C02_pkix_rsa_from_bytes : forall inf n e rest, int_wf n = true -> exp_wf e = true ->
+  parse_pkix_der inf (enc_spki_rsa n e ++ rest) = Ok (key_description "PKIX public key" name_rsa n).
 Proof. exact pkix_rsa_der_enc. Qed.
 Print Assumptions C02_pkix_rsa_from_bytes.
 
-Theorem C02_pkix_dsa_from_bytes : forall ec p q g y rest,
+Theorem C02_pkix_dsa_from_bytes : forall inf p q g y rest,
   int_wf p = true -> int_wf q = true -> int_wf g = true -> int_wf y = true ->
-  parse_pkix_der ec (enc_spki_dsa p q g y ++ rest) = Ok (key_description "PKIX public key" name_dsa p).
+  parse_pkix_der inf (enc_spki_dsa p q g y ++ rest) = Ok (key_description "PKIX public key" name_dsa p).
 Proof. exact pkix_dsa_der_enc. Qed.
 Print Assumptions C02_pkix_dsa_from_bytes.
 
-Theorem C02_pkix_ed25519_from_bytes : forall ec pk rest, N.of_nat (length pk) <= 1000000 ->
-  parse_pkix_der ec (enc_spki_ed25519 pk ++ rest) = Ok (Info (bs "PKIX public key") ed25519_attrs []).
+Theorem C02_pkix_ed25519_from_bytes : forall inf pk rest, N.of_nat (length pk) <= 1000000 ->
+  parse_pkix_der inf (enc_spki_ed25519 pk ++ rest) = Ok (Info (bs "PKIX public key") ed25519_attrs []).
 Proof. exact pkix_ed25519_der_enc. Qed.
 Print Assumptions C02_pkix_ed25519_from_bytes.
 
 (* PKCS#8: the right-hand sides mention no private component (d, p, q, dP, dQ, qInv; x; the seed) *)
-Theorem C02_pkcs8_rsa_from_bytes : forall ec n e d p q dp dq qinv rest,
+Theorem C02_pkcs8_rsa_from_bytes : forall inf n e d p q dp dq qinv rest,
   int_wf n = true -> exp_wf e = true -> int_wf d = true -> int_wf p = true -> int_wf q = true ->
   int_wf dp = true -> int_wf dq = true -> int_wf qinv = true ->
-  parse_pkcs8_der ec (enc_pkcs8_rsa n e d p q dp dq qinv ++ rest)
+  parse_pkcs8_der inf (enc_pkcs8_rsa n e d p q dp dq qinv ++ rest)
   = Ok (key_description "PKCS#8 private key" name_rsa n).
 Proof. exact pkcs8_rsa_der_enc. Qed.
 Print Assumptions C02_pkcs8_rsa_from_bytes.
 
-Theorem C02_pkcs8_dsa_from_bytes : forall ec p q g x rest,
+Theorem C02_pkcs8_dsa_from_bytes : forall inf p q g x rest,
   int_wf p = true -> int_wf q = true -> int_wf g = true -> int_wf x = true ->
-  parse_pkcs8_der ec (enc_pkcs8_dsa p q g x ++ rest) = Ok (key_description "PKCS#8 private key" name_dsa p).
+  parse_pkcs8_der inf (enc_pkcs8_dsa p q g x ++ rest) = Ok (key_description "PKCS#8 private key" name_dsa p).
 Proof. exact pkcs8_dsa_der_enc. Qed.
 Print Assumptions C02_pkcs8_dsa_from_bytes.
 
-Theorem C02_pkcs8_ed25519_from_bytes : forall ec seed rest, N.of_nat (length seed) <= 1000000 ->
-  parse_pkcs8_der ec (enc_pkcs8_ed25519 seed ++ rest) = Ok (Info (bs "PKCS#8 private key") ed25519_attrs []).
+Theorem C02_pkcs8_ed25519_from_bytes : forall inf seed rest, N.of_nat (length seed) <= 1000000 ->
+  parse_pkcs8_der inf (enc_pkcs8_ed25519 seed ++ rest) = Ok (Info (bs "PKCS#8 private key") ed25519_attrs []).
 Proof. exact pkcs8_ed25519_der_enc. Qed.
 Print Assumptions C02_pkcs8_ed25519_from_bytes.
 
@@ -551,3 +551,44 @@ Example C02_spki_pkcs8_from_bytes_examples :
      = Ok (Info (bs "PKCS#8 private key") [(bs "Algorithm", bs "EdDSA"); (bs "Curve", bs "Ed25519")] []).
 Proof. exact spki_pkcs8_der_examples. Qed.
 Print Assumptions C02_spki_pkcs8_from_bytes_examples.
+
+(* EC keys over a named curve (P-224, P-256, P-384, P-521), from the bytes: EC parameters, the SEC1
+   ECPrivateKey with its two EXPLICITLY tagged optional fields (encoding/asn1's explicit-tag handling is in
+   the model, quirks included), SubjectPublicKeyInfo and PKCS#8 under id-ecPublicKey.  The curve shown is the
+   key's; the private scalar d / the inner key octets do not appear on the right-hand side.  [inf], the answer
+   of the curve matcher for EXPLICIT parameters (C16), is arbitrary: it is not consulted for a named curve.
+   ec_description label c = Info label [Algorithm = ECDSA; Curve = curve_shown c] [] *)
+Theorem C02_ec_parameters_from_bytes : forall inf c rest,
+  parse_ec_parameters_der inf (enc_oid (curve_oid c) ++ rest)
+  = Ok (Info (bs "EC parameters") [(bs "Curve", curve_shown c)] []).
+Proof. exact ec_parameters_named_der_enc. Qed.
+Print Assumptions C02_ec_parameters_from_bytes.
+
+Theorem C02_sec1_from_bytes : forall inf c d pub rest,
+  N.of_nat (length d) <= 1000000 -> N.of_nat (length pub) <= 1000000 ->
+  parse_sec1_der inf (enc_sec1_named (curve_oid c) d pub ++ rest) = Ok (ec_description "EC private key" c).
+Proof. exact sec1_named_der_enc. Qed.
+Print Assumptions C02_sec1_from_bytes.
+
+Theorem C02_pkix_ec_from_bytes : forall inf c point rest, N.of_nat (length point) <= 1000000 ->
+  parse_pkix_der inf (enc_spki_ec_named (curve_oid c) point ++ rest) = Ok (ec_description "PKIX public key" c).
+Proof. exact pkix_ec_named_der_enc. Qed.
+Print Assumptions C02_pkix_ec_from_bytes.
+
+Theorem C02_pkcs8_ec_from_bytes : forall inf c inner rest, N.of_nat (length inner) <= 1000000 ->
+  parse_pkcs8_der inf (enc_pkcs8_ec_named (curve_oid c) inner ++ rest) = Ok (ec_description "PKCS#8 private key" c).
+Proof. exact pkcs8_ec_named_der_enc. Qed.
+Print Assumptions C02_pkcs8_ec_from_bytes.
+
+Example C02_ec_from_bytes_examples :
+  let d := repeat 7 32 in let pub := 4 :: repeat 9 64 in let oid := enc_oid (curve_oid P256) in
+  let shown := Ok (Info (bs "EC private key") [(bs "Algorithm", bs "ECDSA"); (bs "Curve", bs "P-256 (secp256r1, prime256v1)")] []) in
+  parse_sec1_der (Err "no answer") (enc_sec1_named (curve_oid P256) d pub) = shown
+  /\ parse_ec_parameters_der (Err "no answer") oid = Ok (Info (bs "EC parameters") [(bs "Curve", bs "P-256 (secp256r1, prime256v1)")] [])
+  /\ parse_pkix_der (Err "no answer") (enc_spki_ec_named (curve_oid P384) pub)
+     = Ok (Info (bs "PKIX public key") [(bs "Algorithm", bs "ECDSA"); (bs "Curve", bs "P-384 (secp384r1)")] [])
+  /\ parse_sec1_der (Err "no answer") (enc_seq (enc_int 1 ++ enc_octets d ++ [160; 2] ++ oid)) = shown
+  /\ parse_sec1_der (Err "no answer") (enc_seq (enc_int 1 ++ enc_octets d ++ ctx_enc 0 oid ++ [5; 0])) = Err "asn1"
+  /\ parse_sec1_der (Err "no answer") (enc_seq (enc_int 1 ++ enc_octets d ++ [160; 0])) = Err "asn1".
+Proof. exact ec_der_examples. Qed.
+Print Assumptions C02_ec_from_bytes_examples.
